@@ -25,7 +25,6 @@ type vchCert struct {
 	name  string
 	chunk Chunk[dsmrtest.Tx]
 	cert  *ChunkCertificate
-	added bool
 }
 
 type vchBlock struct {
@@ -98,13 +97,19 @@ func (s *vchScenario) chainCerts(name string) []string {
 	return out
 }
 
-func (s *vchScenario) addCert(name string) {
+// addCert offers the chunk and then its certificate to the node's storage the way peers do (signature request, then
+// certificate gossip): the real ChunkVerifier decides whether the chunk is admitted (expiry within the validity window
+// of the storage minimum).
+func (s *vchScenario) addCert(name string) bool {
 	c := s.certs[name]
-	if err := s.n.storage.AddLocalChunkWithCert(c.chunk, c.cert); err != nil {
-		s.t.Fatalf("verif harness: AddLocalChunkWithCert: %v", err)
+	res := "ok"
+	if _, err := s.n.storage.VerifyRemoteChunk(c.chunk); err != nil {
+		res = "rejected"
+	} else if err := s.n.storage.SetChunkCert(context.Background(), c.chunk.id, c.cert); err != nil {
+		s.t.Fatalf("verif harness: SetChunkCert: %v", err)
 	}
-	c.added = true
-	s.log.add(map[string]any{"ev": "addcert", "c": name})
+	s.log.add(map[string]any{"ev": "addcert", "c": name, "res": res})
+	return res == "ok"
 }
 
 func (s *vchScenario) certNames(cs []*ChunkCertificate) []string {
@@ -172,7 +177,9 @@ func (s *vchScenario) accept(name string) bool {
 		c := s.certs[cn]
 		if _, err := s.n.storage.GetChunkBytes(c.chunk.Expiry, c.chunk.id); err != nil {
 			// Accept would ask peers for the chunk forever: make it available first (as the producer's node would have it)
-			s.addCert(cn)
+			if !s.addCert(cn) {
+				return true // not admissible now, the block stays processing
+			}
 		}
 	}
 	eb, err, returned := vnAccept(s.n.node, b.blk, 60*time.Second)
@@ -196,10 +203,14 @@ func (s *vchScenario) accept(name string) bool {
 		return false
 	}
 	s.lastAcc = name
+	drop := []string{}
 	for n := range s.blocks {
 		if n != "g" && !s.onAcceptedBranch(n) && !s.isAncestorOf(n, name) {
-			delete(s.blocks, n)
+			drop = append(drop, n)
 		}
+	}
+	for _, n := range drop {
+		delete(s.blocks, n)
 	}
 	return true
 }
@@ -244,8 +255,8 @@ func TestVerifChainRecord(t *testing.T) {
 		if nets[win] == nil {
 			nets[win] = newVnNet(t, 1, win)
 		}
-		s := newVchScenario(t, nets[win], r, int64(4+r.Intn(8)))
-		for _, i := range r.Perm(len(vchCertNames))[:2+r.Intn(3)] {
+		s := newVchScenario(t, nets[win], r, win+int64(1+r.Intn(6)))
+		for _, i := range r.Perm(len(vchCertNames)) {
 			s.addCert(vchCertNames[i])
 		}
 		for step := 0; step < depth; step++ {
@@ -256,11 +267,8 @@ func TestVerifChainRecord(t *testing.T) {
 			}
 			ts := s.blocks[tip].blk.Timestamp + 1 + int64(r.Intn(3))
 			switch k := r.Intn(100); {
-			case k < 10:
-				c := vchCertNames[r.Intn(len(vchCertNames))]
-				if !s.certs[c].added {
-					s.addCert(c)
-				}
+			case k < 16:
+				s.addCert(vchCertNames[r.Intn(len(vchCertNames))])
 			case k < 32:
 				s.build(tip, ts)
 			case k < 72:
